@@ -285,9 +285,11 @@ def stepMain (line : String) : String :=
       match ofHex hex with
       | none => "bad-hex"
       | some bs =>
-        let out : String := match Spec.pInt 4 bs with
-          | none => "err"
-          | some (n, r) => if n < 0 then "err" else if n.toNat ≤ r.length then "ok" else "err"
+        let out : String := match saslReadResp Gen.saslCfg bs with
+          | .ok _ _ => "ok"
+          | .error => "err"
+          | .panic => "panic"
+          | .balloon => "balloon"
         answer out (impl == "ok" || impl == "err")
     | ["connresp", _op, _ver, _k, _len, digest] =>
       -- a well-formed response delivered in two pieces cut at k: decoded without error, exactly the frame
